@@ -6,6 +6,12 @@
   correspondence: the extracted value mapping against the JSON text pyecore writes for a one-object model
       (json.loads of the bytes: type and content of the value) and against the value pyecore loads;
       the filling order of a bidirectional end on edited (one-sided) documents
+  whole documents (harness/jsondoc.py, Model/JsonDoc.v, theorem C09_document_round_trip): on generated
+      metamodels / models restricted to the modelled fragment (one package, positional fragments, no uuid, no id
+      attribute) (a) json.loads of the bytes the real save wrote = run_jsondoc_enc on the abstract forest read from
+      the real objects (entries of an object compared as sorted by key: the order of `_isset` is not modelled),
+      (b) the observation of the real load of those bytes = run_jsondoc_dec on that document, and every generated
+      state satisfies the premises wf_forest / jwf_forest of the theorem
   oracle: generated metamodels x models x options; save; load in a fresh ResourceSet; equal canonical dumps
       (proxies resolved); C01-C03 on the loaded model; no element twice under a unique feature.
 """
@@ -15,6 +21,7 @@ import time
 from harness import common
 from harness import ser_gen as G
 from harness import ser_rt as R
+from harness import jsondoc as JD
 from harness.props import c08 as X
 
 PROP = 'C09'
@@ -213,6 +220,9 @@ def regression_cases():
         ('json-id-reference', mm,
          {'roots': [0], 'objs': {'0': {'cls': 'A', 'sets': [['kids', [1]], ['plain', [1, 1]], ['s1', 1]]},
                                  '1': {'cls': 'A', 'sets': [['ident', ['s', 'k1']]]}}}, no),
+        # a resource without root: save raised IndexError before 3dec3c1
+        ('json-empty-resource', mm, {'roots': [], 'objs': {}}, no),
+        ('json-empty-resource-serialize-default', mm, {'roots': [], 'objs': {}}, dict(no, serialize_default=True)),
     ]
     out = []
     for name, m, md, opts in cases:
@@ -232,10 +242,17 @@ def run(ctx, out):
     st = {'value_documents': 0, 'skipped_as_default': 0, 'entries_left_out': 0, 'entries_written': 0, 'kinds': {}, 'refload_documents': 0}
     X.guarded(out, 'bidirectional ends', X.corr_refload, out, model, st, ctx.rng, built, mm, 1500 if thorough else 200, fmt='json')
     X.guarded(out, 'attribute values', corr_values, out, model, st, ctx.rng, built, mm, t0 + budget * 0.4)
-    model.close()
     stats = R.new_stats()
+    # whole documents: extra time on top of the budget of the other sections (quick: <= 10 s); its own generator,
+    # derived from the seed, so that the case stream of the oracle below stays what it was
+    tx = time.time()
+    jst = {}
+    X.guarded(out, 'whole documents', JD.corr_jsondoc, PROP, out, model, jst, common.rng_for(ctx.seed, 'C09:jsondoc'),
+              6000 if thorough else 400, tx + (150 if thorough else 10), stats)
+    budget += time.time() - tx
+    model.close()
     R.oracle_loop(PROP, 'json', ctx, out, max(5, t0 + budget - time.time()), stats, regression_cases())
-    traces = st['value_documents'] + st['refload_documents']
+    traces = st['value_documents'] + st['refload_documents'] + 2 * jst.get('cases', 0)
     out.coverage.update({
         'evaluations': stats['cases'] + traces,
         'oracle_cases': stats['cases'],
@@ -243,9 +260,14 @@ def run(ctx, out):
         'rule': 'oracle: a case = (generated metamodel, generated model, save options) saved as JSON and loaded in a fresh '
                 'ResourceSet; distinct_nontrivial = number of distinct canonical dumps among them. correspondence: a trace = one '
                 'document written by pyecore whose JSON value (type and content, read back with json.loads) and loaded value are '
-                'compared with the extracted Coq value mapping, and edited one-sided documents for the bidirectional ends',
+                'compared with the extracted Coq value mapping, and edited one-sided documents for the bidirectional ends; '
+                'jsondoc_cases = whole documents (generated metamodel + model + options) whose JSON written by the real save '
+                'equals encode_jdoc AND whose real load equals decode_jdoc (two traces each)',
         'traces_validated_against_impl': traces,
         'correspondence': st,
+        'jsondoc_cases': jst.get('cases', 0),
+        'jsondoc': {k: v for k, v in jst.items() if k != 'samples'},
+        'jsondoc_samples': jst.get('samples', []),
         'metamodels': stats['metamodels'], 'regression_cases': stats['regression_cases'],
         'failing_cases': stats['failing_cases'], 'shrink_steps': stats['shrink_steps'],
         'distribution': {'options': stats['options'], 'roots': stats['roots'], 'objects': stats['objects'],
@@ -257,7 +279,9 @@ def run(ctx, out):
         'the value correspondence uses integers below 2**61 (the driver protocol); the oracle covers unbounded integers',
         'isomorphism = equality of harness/ser_gen.dump with proxies resolved (floats/decimals/dates by value)',
         'references stay inside the resource (cross-resource references, which remain lazy proxies: C14)',
-        'the semantic round trip is checked by the oracle, not proved (Props/C09.v header)',
+        'the semantic round trip over whole documents is proved for the fragment of Model/JsonDoc.v (C09_document_round_trip) and '
+        'tied by harness/jsondoc.py; outside that fragment (uuid, id attributes as $ref, odd ids) it is checked by the oracle only',
+        'jsondoc: the entries of a JSON object are compared as sorted by key (insertion order of _isset is not modelled)',
     ]
 
 
